@@ -438,6 +438,97 @@ def gen_mod_invloop(rng):
     return mod_module(samples, rows, magic=rng.choice([b"M.K.", b"M.K.", b"M!K!"])), "mod"
 
 
+
+def gen_med3(rng):
+    """MED 2.00 "MED3": nibble-packed pattern blocks (two 32-row line masks and two effect masks, each either
+    stored, all-zero or all-one by flag, then per row a channel-mask nibble and 3 nibbles per selected cell).
+    Blocks are written exactly, or with a declared size short of / beyond what the masks consume."""
+    out = bytearray(b"MED\x03")
+    for i in range(32):
+        nm = rng.choice([b"", b"i", b"instrument %d" % i, b"x" * rng.choice([31, 32, 39])])
+        out += nm[:39] + b"\0" if len(nm) < 40 else nm[:40]
+    nins = rng.randint(1, 4)
+
+    def masked(vals, width):
+        m, body = 0, b""
+        for i in range(32):
+            if i < len(vals) and vals[i] is not None:
+                m |= 0x80000000 >> i
+                body += struct.pack(">B" if width == 1 else ">H", vals[i])
+        return struct.pack(">I", m) + body
+    out += masked([rng.choice([0, 32, 64, 65, 255]) for _ in range(nins)], 1)
+    slen = [rng.choice([2, 32, 500, 3000]) for _ in range(nins)]
+    out += masked([rng.choice([0, 0, 1, n // 2, n]) for n in slen], 2)
+    out += masked([rng.choice([0, 1, 2, n // 2, n, 0xffff]) for n in slen], 2)
+    npat = rng.randint(1, 3)
+    ln = rng.randint(1, 6)
+    out += struct.pack(">HH", npat, ln) + bytes(rng.choice([0, npat - 1, rng.randrange(npat), npat, 255]) if rng.random() < 0.2
+                                                 else rng.randrange(npat) for _ in range(ln))
+    flags = rng.choice([0x20, 0x20, 0x20, 0x00, 0xff])          # FLAG_INSTRSATT mostly set
+    out += struct.pack(">HbBH", rng.choice([1, 6, 10, 33, 125, 240, 0, 0xffff]), rng.choice([0, 0, 12, -12, 127, -128]), flags,
+                       rng.choice([5, 6]))
+    out += bytes(4) + bytes(16)
+    out += masked([1 for _ in range(rng.choice([0, 0, 2]))], 1) + masked([1 for _ in range(rng.choice([0, 0, 2]))], 1)
+    for p in range(npat):
+        b = 0
+        words = []
+        for k, (zero, ones) in enumerate([(0x10, 0x01), (0x20, 0x02), (0x40, 0x04), (0x80, 0x08)]):
+            x = rng.random()
+            if x < 0.3:
+                b |= zero
+                words.append((0, False))
+            elif x < 0.55:
+                b |= ones
+                words.append((0xffffffff, False))
+            else:
+                words.append((rng.choice([0, 1, 0x80000000, 0xffffffff, rng.getrandbits(32), rng.getrandbits(32) & rng.getrandbits(32)]), True))
+        if rng.random() < 0.05:
+            b = rng.randrange(256)              # both flags of a mask set at once etc.; the stored words follow the loader's rule
+            words = [((0, False) if b & z else (0xffffffff, False) if b & o else (w[0], True))
+                     for w, (z, o) in zip(words, [(0x10, 0x01), (0x20, 0x02), (0x40, 0x04), (0x80, 0x08)])]
+        nibs = []
+        sparse = rng.random() < 0.3             # rows flagged in the masks but with empty channel masks
+        for half in range(2):
+            lm, fm = words[half][0], words[2 + half][0]
+            for r in range(32):
+                for msk in (lm, fm):
+                    if msk & (0x80000000 >> r):
+                        cm = 0 if sparse else rng.choice([0, 1, 8, 0xf, rng.randrange(16)])
+                        nibs.append(cm)
+                        for c in range(4):
+                            if cm & (8 >> c):
+                                nibs += [rng.randrange(16), rng.randrange(16), rng.randrange(16)]
+        data = bytearray((len(nibs) + 1) // 2)
+        for i, nb in enumerate(nibs):
+            data[i // 2] |= nb << (0 if i & 1 else 4)
+        x = rng.random()
+        if x < 0.55:
+            convsz = len(data)
+        elif x < 0.8:
+            convsz = max(0, len(data) - rng.choice([1, 1, 2, 3, 8, 16, len(data)]))
+        elif x < 0.9:
+            convsz = rng.choice([0, 1, 2, 16])
+        else:
+            convsz = len(data) + rng.choice([1, 16, 300])
+        body = bytes(data[:convsz]).ljust(convsz, b"\0") if rng.random() < 0.9 else bytes(data[:convsz])
+        out += bytes([4, b]) + struct.pack(">H", convsz & 0xffff)
+        for w, stored in words:
+            if stored:
+                out += struct.pack(">I", w)
+        out += body
+    smask = 0
+    sbody = b""
+    for i in range(nins):
+        if rng.random() < 0.85:
+            smask |= 0x80000000 >> i
+            n = slen[i]
+            sbody += struct.pack(">IH", n if rng.random() < 0.9 else rng.choice([0, n + 7, 0x7fffffff]), rng.choice([0, 0, 0, 1])) + pcm8(rng, n)
+    out += struct.pack(">I", smask) + sbody
+    if rng.random() < 0.1:
+        out = out[:rng.randrange(len(out))]
+    return bytes(out), "med"
+
+
 def c01_witnesses(dirname):
     """Deterministic modules that drive the mixer's position bookkeeping through its corner paths; returns
     [(path, rate, interps)].  reverse-past-end.it is the witness of the defect fixed by
@@ -852,7 +943,7 @@ def gen_mmd(rng):
 
 GENS = [gen_mod, gen_xm, gen_xm, gen_s3m, gen_it, gen_it]
 # generators added for C01 only (C02 keeps using GENS through write_set)
-GENS_C01_EXTRA = [gen_dbm, gen_it_compressed, gen_mmd, gen_dbm, gen_mmd, gen_it_compressed, gen_it_midi, gen_mod_invloop]
+GENS_C01_EXTRA = [gen_dbm, gen_it_compressed, gen_mmd, gen_dbm, gen_mmd, gen_it_compressed, gen_it_midi, gen_mod_invloop, gen_med3, gen_med3]
 
 
 def write_set_extra(rng, dirname, count, gens=None, prefix="syx"):
